@@ -205,10 +205,11 @@ def rt_real(seed, n):
                 val = np.linalg.solve(np.eye(Sn) - g * P, r)
                 best_val = [max(x, y) for x, y in zip(best_val, val)]
             else:
-                Pinf = np.linalg.matrix_power(P, 2 ** 14)
-                for _ in range(6):
-                    Pinf = (Pinf + Pinf @ P) / 2
-                gain = Pinf @ r
+                # gain of the policy from its evaluation equations ((I-P)g = 0, g + (I-P)h = r), least squares: g is unique (also for periodic chains)
+                Ieye = np.eye(Sn)
+                Asys = np.block([[Ieye - P, np.zeros((Sn, Sn))], [Ieye, Ieye - P]])
+                sol = np.linalg.lstsq(Asys, np.concatenate([np.zeros(Sn), r]), rcond=None)[0]
+                gain = sol[:Sn]
                 best_gain = [max(x, y) for x, y in zip(best_gain, gain)]
         if g < 1:
             out.append(dict(name='rt:MPI:converged(discounted)=>state-values-optimal', ok=all(abs(res.state_value[s] - best_val[s]) < 1e-6 for s in range(Sn)),
